@@ -98,6 +98,16 @@ func verifRewriteCheck(src []byte) {
 	}
 	// the tokens as loaded (File.Bytes/WriteTo additionally format them)
 	out := f.inTree.children.BuildTokens(nil).Bytes()
+	bom := false
+	if len(src) >= 3 {
+		if src[0] == 0xef {
+			if src[1] == 0xbb {
+				if src[2] == 0xbf {
+					bom = true
+				}
+			}
+		}
+	}
 	verif_assert(len(out) == len(src), "serialising the loaded tokens reproduces the input (length)")
 	if len(out) == len(src) {
 		for k := range src {
@@ -107,7 +117,14 @@ func verifRewriteCheck(src []byte) {
 					same = true // a tab between tokens comes back as a space
 				}
 			}
-			verif_assert(same, "serialising the loaded tokens reproduces the input byte for byte")
+			if bom && k < 3 {
+				// known finding: the scanner strips a leading byte-order mark and the writer
+				// turns the three bytes into three spaces (own label, so that nothing else hides
+				// behind the finding)
+				verif_assert(same, "serialising the loaded tokens reproduces a leading byte-order mark")
+			} else {
+				verif_assert(same, "serialising the loaded tokens reproduces the input byte for byte")
+			}
 		}
 	}
 	// formatting
